@@ -124,7 +124,9 @@ type subsc struct {
 	subj  *subject
 	token string
 	lazy  bool
-	s     *sched
+	// the client's token resolves to the partial-visibility authorizer
+	restricted bool
+	s          *sched
 	mat   *submatview.LocalMaterializer
 	gv    *gatedView
 	ctx   context.Context
@@ -193,9 +195,18 @@ func (sb *subsc) Subscribe(req *stream.SubscribeRequest) (*stream.Subscription, 
 type rec struct {
 	epoch   int
 	commit  uint64
-	qidx    uint64
-	content string
-	aux     string
+	qidx     uint64
+	content  string // canonical answer of the direct query
+	contentR string // the same answer as the restricted token may see it
+	aux      string
+}
+
+// sel returns the record with content set to what a client of the given kind must hold
+func (r rec) sel(restricted bool) rec {
+	if restricted {
+		r.content = r.contentR
+	}
+	return r
 }
 
 type batch struct {
@@ -326,13 +337,14 @@ func (s *sched) commit(class, desc string, data []byte, closes []string) any {
 func (s *sched) recordHist(commit uint64) {
 	st := s.r.fsm.State()
 	for _, sj := range s.subjs {
-		qidx, content := sj.direct(st)
+		qidx, content := sj.direct(st, nil)
+		_, contentR := sj.direct(st, restrictedAuthz)
 		h := s.hist[sj.Name]
 		if n := len(h); n > 0 && h[n-1].epoch == s.epoch && h[n-1].content != content {
 			s.run.Count("relevant-changes")
 			s.run.Count("relevant-changes:" + sj.Class)
 		}
-		r := rec{epoch: s.epoch, commit: commit, qidx: qidx, content: content}
+		r := rec{epoch: s.epoch, commit: commit, qidx: qidx, content: content, contentR: contentR}
 		if sj.aux != nil {
 			r.aux = sj.aux(st)
 		}
@@ -340,11 +352,11 @@ func (s *sched) recordHist(commit uint64) {
 	}
 }
 
-func (s *sched) lookup(sj *subject, epoch int, d uint64) (rec, bool) {
+func (s *sched) lookup(sj *subject, restricted bool, epoch int, d uint64) (rec, bool) {
 	h := s.hist[sj.Name]
 	for i := len(h) - 1; i >= 0; i-- {
 		if h[i].epoch == epoch && h[i].commit <= d {
-			return h[i], true
+			return h[i].sel(restricted), true
 		}
 	}
 	return rec{}, false
@@ -355,7 +367,7 @@ func (s *sched) lookup(sj *subject, epoch int, d uint64) (rec, bool) {
 // advancing the index it reports for it - the blocking-query matter of C06 - there are several, and the
 // stream cannot be blamed for delivering any of them.) Falls back to lookup when the direct query never
 // reported exactly d (e.g. index 0 is delivered as 1).
-func (s *sched) matchSnapshot(sj *subject, epoch int, d uint64, content string) (rec, bool) {
+func (s *sched) matchSnapshot(sj *subject, restricted bool, epoch int, d uint64, content string) (rec, bool) {
 	h := s.hist[sj.Name]
 	var last rec
 	found := false
@@ -363,17 +375,17 @@ func (s *sched) matchSnapshot(sj *subject, epoch int, d uint64, content string) 
 		if h[i].epoch != epoch || h[i].qidx != d {
 			continue
 		}
-		if h[i].content == content {
-			return h[i], true
+		if h[i].sel(restricted).content == content {
+			return h[i].sel(restricted), true
 		}
 		if !found {
-			last, found = h[i], true
+			last, found = h[i].sel(restricted), true
 		}
 	}
 	if found {
 		return last, false
 	}
-	r, ok := s.lookup(sj, epoch, d)
+	r, ok := s.lookup(sj, restricted, epoch, d)
 	return r, ok && r.content == content
 }
 
@@ -640,7 +652,7 @@ func (s *sched) checkDelivery(sb *subsc, dl delivery, canQuery bool) {
 			// a snapshot carries the index the STORE reports for the subject. If it is exactly what a direct
 			// query reported when the client subscribed, the stream only passed on that the store's own
 			// index for this query is not monotonic / lags behind commits that changed the answer (C06's matter).
-			if r, ok := s.lookup(sj, epoch, info.commit); ok && (r.qidx == d || (r.qidx == 0 && d == 1)) {
+			if r, ok := s.lookup(sj, false, epoch, info.commit); ok && (r.qidx == d || (r.qidx == 0 && d == 1)) {
 				key = "C11:" + sj.Class + ":snapshot-index-below-earlier-delivered-index:store-query-index-not-monotonic"
 			}
 		}
@@ -650,7 +662,7 @@ func (s *sched) checkDelivery(sb *subsc, dl delivery, canQuery bool) {
 		if dl.snapshot && info.index != 0 {
 			// a resubscribe with a stale index: was it answered with a snapshot OLDER than what a direct
 			// query returned at that moment (a cached snapshot, to be followed by catch-up events)?
-			if r, ok := s.lookup(sj, epoch, info.commit); ok && d < r.qidx {
+			if r, ok := s.lookup(sj, false, epoch, info.commit); ok && d < r.qidx {
 				key = "C11:snapshot-cache:resubscribe-answered-with-older-cached-snapshot:index-decreased"
 			}
 		}
@@ -679,12 +691,12 @@ func (s *sched) checkDelivery(sb *subsc, dl delivery, canQuery bool) {
 	if sb.tainted {
 		return
 	}
-	exp, ok := s.lookup(sj, epoch, d)
+	exp, ok := s.lookup(sj, sb.restricted, epoch, d)
 	if !ok {
 		panic("harness: no recorded answer")
 	}
 	if dl.snapshot {
-		exp, _ = s.matchSnapshot(sj, epoch, d, dl.content)
+		exp, _ = s.matchSnapshot(sj, sb.restricted, epoch, d, dl.content)
 	}
 	if regressed {
 		// the view went back in time (reported above); what it holds now is a mix, not judged
@@ -799,7 +811,7 @@ func (s *sched) quiescentCheck() {
 			continue // reported through the resubscribe obligation
 		}
 		q := s.query(sb)
-		cur := s.current(sb.subj)
+		cur := s.current(sb.subj).sel(sb.restricted)
 		got := sb.subj.render(q.Value)
 		s.run.Count("quiescent-checks")
 		if got != cur.content {
@@ -826,11 +838,11 @@ func (s *sched) startRun(sb *subsc) {
 
 func (s *sched) newClient(sj *subject, token string, lazy bool) *subsc {
 	s.nextID++
-	sb := &subsc{id: s.nextID, subj: sj, token: token, lazy: lazy, s: s, oblig: map[string]int{}}
+	sb := &subsc{id: s.nextID, subj: sj, token: token, lazy: lazy, s: s, oblig: map[string]int{}, restricted: isRestricted(token)}
 	sb.gv = &gatedView{inner: sj.newView(), subj: sj, sb: sb, release: make(chan struct{}), quit: make(chan struct{})}
 	sb.mat = submatview.NewLocalMaterializer(submatview.LocalMaterializerDeps{
 		Backend:     sb,
-		ACLResolver: allowAll{},
+		ACLResolver: tokenACL{},
 		Deps: submatview.Deps{
 			View:    sb.gv,
 			Logger:  hclog.NewNullLogger(),
@@ -1040,11 +1052,12 @@ func (s *sched) restore(older bool) {
 	// the snapshotted state is C02's subject, not this monitor's)
 	st := s.r.fsm.State()
 	for _, sj := range s.subjs {
-		qidx, content := sj.direct(st)
+		qidx, content := sj.direct(st, nil)
+		_, contentR := sj.direct(st, restrictedAuthz)
 		if content != sn.contents[sj.Name].content {
 			s.run.Count("restored-answer-differs-from-snapshot-time-answer")
 		}
-		r := rec{epoch: s.epoch, commit: 0, qidx: qidx, content: content}
+		r := rec{epoch: s.epoch, commit: 0, qidx: qidx, content: content, contentR: contentR}
 		if sj.aux != nil {
 			r.aux = sj.aux(st)
 		}
